@@ -2,19 +2,22 @@ import os, sys
 sys.path.insert(0, os.path.dirname(os.path.abspath(__file__)))
 from common import *
 PROPERTY = 'C03'
-HARNESSES = {'c03_simple': dict(src='c02_multi.cc', defines=['NCHILD=2', 'OTEL_INTERNAL_LOG_LEVEL=0'], models=['libc.c', 'cxxrt.c', 'stdstring.c', 'single_threaded.c', 'sched.c'])}
+HARNESSES = {'c03_simple': dict(src='c02_multi.cc', defines=['NCHILD=2', 'OTEL_INTERNAL_LOG_LEVEL=0'], models=['libc.c', 'cxxrt.c', 'stdstring.c', 'single_threaded.c', 'sched.c', 'thread_self.c'])}
 QUERIES = [dict(name='simple_processor_lock_across_export', harness='c03_simple', entry='h_simple_processor', unwind=6, timeout=600,
                 shape='two OnEnd calls and two Shutdown calls; exporter results symbolic; lock flag observed inside the exporter'),
            dict(name='simple_processor_lifecycle', harness='c03_simple', entry='h_simple_lifecycle', unwind=6, timeout=600,
                 shape='OnEnd, ForceFlush, optional explicit Shutdown, destruction; exporter results symbolic')]
-HARNESSES['c03_rg'] = dict(src='c03_simple_rg.cc', defines=['OTEL_INTERNAL_LOG_LEVEL=0'], models=['libc.c', 'cxxrt.c', 'stdstring.c', 'single_threaded.c', 'rg_queue.c'], model_defines=['VERIF_CUSTOM_DELETE'], no_default_atomics=True, native_mode='generated_c', roots=['rg_consumer_take'])
+HARNESSES['c03_rg'] = dict(src='c03_simple_rg.cc', defines=['OTEL_INTERNAL_LOG_LEVEL=0'], models=['libc.c', 'cxxrt.c', 'stdstring.c', 'single_threaded.c', 'thread_self.c', 'rg_queue.c'], model_defines=['VERIF_CUSTOM_DELETE'], no_default_atomics=True, native_mode='generated_c', roots=['rg_consumer_take'])
 for e, what in (('h_simple_span_rg', 'SimpleSpanProcessor::OnEnd'), ('h_simple_log_rg', 'SimpleLogRecordProcessor::OnEmit')):
-    QUERIES.append(dict(name=e[2:], harness='c03_rg', entry=e, unwind=5, timeout=600, shape=what + ' from an arbitrary lock state (free / held by another thread) with arbitrary interference on the lock flag before every atomic operation (bounded fairness: the other holder releases within two interferences)'))
+    QUERIES.append(dict(name=e[2:], harness='c03_rg', entry=e, unwind=5, timeout=600, shape=what + ' two consecutive calls by one thread, each from an arbitrary lock state (free / held by another thread) with arbitrary interference on the lock flag before every atomic operation (bounded fairness: the other holder releases within two interferences)'))
 from batch_common import *
 for logs in (False, True):
     for (q, b, k, t, i, tier) in ((4, 2, 4, 1, 0, 'quick'), (4, 2, 4, 2, 0, 'quick'), (4, 2, 3, 1, 1, 'thorough'), (4, 3, 4, 1, 0, 'thorough'), (4, 1, 3, 2, 0, 'thorough'), (2, 1, 2, 1, 0, 'thorough')):
         add_query(HARNESSES, QUERIES, logs, q, b, k, t, i, 'h_export_cycle', 'batch_bounds_cycle', tier)
     add_query(HARNESSES, QUERIES, logs, 4, 2, 4, 0, 0, 'h_shutdown', 'batch_bounds_shutdown', 'quick')
+HARNESSES['c03_per_i2'] = hp(0, 2)
+QUERIES.append(dict(name='periodic_no_overlapping_export', harness='c03_per_i2', entry='h_collect_cycle', unwind=8, unwindset=BATCH_US, rec_unwind=3, timeout=600, tier='quick',
+                    shape='PeriodicExportingMetricReader: a collect/export cycle during whose Export another thread may call Shutdown (joining the worker blocks until the cycle is over)'))
 BOUNDS = ['batch processors (span and log): queue 2..4, batch 1..3, ticket history classes incl. an earlier ForceFlush, shutdown drain; concrete shape per query', 'SimpleSpanProcessor sequential call scripts; SimpleSpanProcessor::OnEnd and SimpleLogRecordProcessor::OnEmit thread-modularly (one call, arbitrary lock pre-state and interference); mutual exclusion of the lock itself is C11 (spinlock query)']
-OUTSIDE = ['real overlap of two Export calls on a batch processor (there is one worker; Export is only reachable from Export()/DrainQueue(), which the harness runs one at a time; the mock exporter flags re-entry)', 'periodic metric reader']
+OUTSIDE = ['real overlap of two Export calls on a batch processor (there is one worker; Export is only reachable from Export()/DrainQueue(), which the harness runs one at a time; the mock exporter flags re-entry)', 'periodic metric reader racing ForceFlush beyond the patterns of C02 (ForceFlush itself never calls Export; only the worker cycle does)']
 ASSUMPTIONS = ['single executing thread inside the query; the lock flag is read through the sequential atomic hooks'] + BATCH_ASSUMPTIONS
